@@ -1,9 +1,141 @@
 import NibabelModel.Model.C05
 import Driver.Util
-/-! Line-protocol driver for C05: `C05 <op> <args...>` -> one observable line. -/
+/-! Line-protocol driver for C05: `C05 <op> <args...>` -> one observable line.
+
+  ops (tokens separated by spaces; lists comma-separated, `-` = empty, `_` = None):
+  * `slice <shape> <aff12> <idx>`                         img.slicer[idx]
+  * `reor <shape> <aff12> <ornt> <dim>`                   Nifti1Image.as_reoriented(ornt)
+  * `canon <shape> <aff12> <R9> <tol> <dim> <enforce>`    as_closest_canonical (polar factor R supplied)
+  * `ioor <q> <p> <Rflat> <tol>`                          io_orientation from R onward
+  * `orn2ax <ornt>` / `ax2orn <codes>` / `otrans <a> <b>` / `invaff <ornt> <shape>`
+  ornt = rows `ax,flip` or `nan` separated by `;`.  idx items as in C06 (`sA,B,C`, `iN`, `n`, `e`). -/
 namespace Nb.Drv.C05
+open Nb Nb.C05 Nb.C06
+
+def parseItem? (s : String) : Option IdxItem :=
+  if s = "n" then some .newaxis
+  else if s = "e" then some .ellipsis
+  else if s.startsWith "i" then (s.drop 1).toString.toInt?.map IdxItem.int
+  else if s.startsWith "s" then
+    match ((s.drop 1).toString.splitOn ",").mapM parseOptInt? with
+    | some [a, b, c] => some (.slice ⟨a, b, c⟩)
+    | _ => none
+  else none
+
+def parseIdx? (s : String) : Option (List IdxItem) :=
+  if s = "-" then some [] else (s.splitOn ";").mapM parseItem?
+
+def parseAff? (s : String) : Option (Aff Int) :=
+  match parseIntList? s with
+  | some [a, b, c, d, e, f, g, h, i, j, k, l] => some ⟨⟨a, b, c, d⟩, ⟨e, f, g, h⟩, ⟨i, j, k, l⟩⟩
+  | _ => none
+
+def parseOrntRow? (s : String) : Option (Option (Nat × Int)) :=
+  if s = "nan" then some none
+  else match s.splitOn "," with
+    | [a, f] => match a.toNat?, f.toInt? with
+      | some a, some f => some (some (a, f))
+      | _, _ => none
+    | _ => none
+
+def parseOrntN? (s : String) : Option OrntN :=
+  if s = "-" then some [] else (s.splitOn ";").mapM parseOrntRow?
+
+def parseOrnt? (s : String) : Option Ornt := (parseOrntN? s).bind OrntN.toOrnt
+
+def parseDim? (s : String) : Option DimInfo :=
+  match (s.splitOn ",").mapM (fun t => if t = "_" then some none else t.toNat?.map some) with
+  | some [a, b, c] => some [a, b, c]
+  | _ => none
+
+def parseCodes? (s : String) : Option (List (Option Char)) :=
+  if s = "-" then some [] else some (s.toList.map (fun c => if c = '_' then none else some c))
+
+def showRow : Option (Nat × Int) → String
+  | none => "nan"
+  | some (a, f) => toString a ++ "," ++ toString f
+
+def showOrntN (o : OrntN) : String := if o.isEmpty then "-" else ";".intercalate (o.map showRow)
+
+def showDim (d : DimInfo) : String :=
+  ",".intercalate (d.map (fun x => match x with | none => "_" | some k => toString k))
+
+def showErr : PyErr → String
+  | .index => "ERR:IndexError"
+  | .value => "ERR:ValueError"
+  | .orientation => "ERR:OrientationError"
+
+def showReor (shape : List Nat) (r : ReorOut) : String :=
+  "same=" ++ (if r.same then "1" else "0") ++ " " ++ showList r.shape ++ " " ++ showList r.affine.toList ++
+    " " ++ showList (r.data shape) ++ " " ++ showDim r.dimInfo
+
+/-- rows of a q x p matrix given flat (row major) -/
+def toRows (p : Nat) : Nat → List Int → List (List Int)
+  | 0, _ => []
+  | q + 1, l => l.take p :: toRows p q (l.drop p)
+
+/-- orientation accepted by `reor`: NaN rows present, or a valid 3-row signed permutation -/
+def reorAcceptable (o : OrntN) : Bool :=
+  match o.toOrnt with
+  | none => o.length == 3
+  | some oo => oo.length == 3 && oo.valid
 
 def handle : List String → String
+  | ["slice", shape, aff, idx] =>
+      match parseNatList? shape, parseAff? aff, parseIdx? idx with
+      | some shape, some A, some idx =>
+          match slicer A shape idx with
+          | .ok o => "ok " ++ showList o.shape ++ " " ++ showList o.affine.toList ++ " " ++ showList (o.data shape)
+          | .error e => showErr e
+      | _, _, _ => "bad-op"
+  | ["reor", shape, aff, ornt, dim] =>
+      match parseNatList? shape, parseAff? aff, parseOrntN? ornt, parseDim? dim with
+      | some shape, some A, some o, some d =>
+          if !reorAcceptable o || shape.length < 3 then "bad-op" else
+          match asReoriented A shape d o with
+          | .ok r => "ok " ++ showReor shape r
+          | .error e => showErr e
+      | _, _, _, _ => "bad-op"
+  | ["canon", shape, aff, rr, tol, dim, enf] =>
+      match parseNatList? shape, parseAff? aff, parseIntList? rr, tol.toNat?, parseDim? dim,
+            (if enf = "0" then some false else if enf = "1" then some true else none) with
+      | some shape, some A, some rr, some tol, some d, some enf =>
+          if rr.length ≠ 9 || shape.length < 3 then "bad-op" else
+          match asClosestCanonical A shape d (toRows 3 3 rr) tol enf with
+          | .ok (o, r) => "ok " ++ showOrntN o ++ " " ++ showReor shape r
+          | .error e => showOrntN (ioOrientation (toRows 3 3 rr) 3 tol) ++ " " ++ showErr e
+      | _, _, _, _, _, _ => "bad-op"
+  | ["ioor", q, p, rr, tol] =>
+      match q.toNat?, p.toNat?, parseIntList? rr, tol.toNat? with
+      | some q, some p, some rr, some tol =>
+          if rr.length ≠ q * p then "bad-op" else showOrntN (ioOrientation (toRows p q rr) p tol)
+      | _, _, _, _ => "bad-op"
+  | ["orn2ax", ornt] =>
+      match parseOrntN? ornt with
+      | some o => match ornt2axcodes o with
+          | .ok cs => if cs.isEmpty then "-" else String.ofList (cs.map (fun c => c.getD '_'))
+          | .error e => showErr e
+      | none => "bad-op"
+  | ["ax2orn", codes] =>
+      match parseCodes? codes with
+      | some cs => match axcodes2ornt cs with
+          | .ok o => showOrntN o
+          | .error e => showErr e
+      | none => "bad-op"
+  | ["otrans", a, b] =>
+      match parseOrnt? a, parseOrnt? b with
+      | some a, some b => match orntTransform a b with
+          | .ok o => if o.any (·.isNone) then "bad-op" else showOrntN o
+          | .error e => showErr e
+      | _, _ => "bad-op"
+  | ["invaff", ornt, shape] =>
+      match parseOrnt? ornt, parseNatList? shape with
+      | some o, some shape =>
+          if !(o.length == 3 && o.valid) || shape.length < 3 then "bad-op" else
+          match invOrntAff o shape with
+          | some M => showList M.toList
+          | none => "bad-op"
+      | _, _ => "bad-op"
   | _ => "bad-op"
 
 end Nb.Drv.C05
